@@ -802,6 +802,20 @@ class NumpyShim:
             return f(a, b)
         return rnp.isclose(a, b, rtol=rtol, atol=atol, **k)
 
+    def allclose(self, a, b, rtol=1e-05, atol=1e-08, **k):
+        if has_sym(a) or has_sym(b):
+            r = self.isclose(a, b, rtol=rtol, atol=atol)
+            return r.all() if isinstance(r, rnp.ndarray) else r
+        return rnp.allclose(a, b, rtol=rtol, atol=atol, **k)
+
+    def array_equal(self, a, b, **k):
+        if has_sym(a) or has_sym(b):
+            if rnp.shape(a) != rnp.shape(b):
+                return False
+            r = _map(lambda x, y: plain(x) == plain(y), rnp.asarray(a, dtype=object), rnp.asarray(b, dtype=object))
+            return r.all()
+        return rnp.array_equal(a, b, **k)
+
     def count_nonzero(self, a, **k):
         if has_sym(a):
             return sum(ite(SymNd._truth(e), 1, 0) for e in rnp.asarray(a, dtype=object).flat)
